@@ -35,6 +35,15 @@ def _is_active(node, active):
     return any(r.symbol.name.lower() in active for r in node.walk(Reference))
 
 
+def _is_passive_stmt(node, active):
+    """a statement PSyAD keeps unchanged (hoisted); an IF/loop that has become empty in the adjoint
+    (e.g. the adjoint of `x = x`) is structure, not a passive statement"""
+    from psyclone.psyir import nodes as N
+    if _is_active(node, active):
+        return False
+    return not isinstance(node, (N.IfBlock, N.Loop)) or bool(node.walk((N.Assignment, N.CodeBlock, N.Call)))
+
+
 def _aref(ref, names):
     from psyclone.psyir import nodes as N
     if isinstance(ref, N.ArrayReference):
@@ -88,13 +97,32 @@ def _term(node, neg, active, names):
     return [1 if neg else 0, coef, aref]
 
 
+def lin_routine(children, active, names, locals_=()):
+    """Top level of a routine: returns (prelude, form).  Passive statements are only allowed as
+    one contiguous block at the top (after the zeroing of local active variables in an adjoint
+    routine); they are exported to MiniF as the `prelude`, the rest is the linear form."""
+    children = list(children)
+    passive = [i for i, c in enumerate(children) if _is_passive_stmt(c, active)]
+    prelude = []
+    if passive:
+        if passive != list(range(passive[0], passive[-1] + 1)):
+            raise OutsideModel("passive statements interleaved with active ones")
+        for c in children[:passive[0]]:
+            f = lin_stmt(c, active, names)
+            if not (f[0] == "asg" and f[2] == [] and names.id(c.lhs.name) in [names.id(x) for x in locals_]):
+                raise OutsideModel("passive statement after an active one")
+        prelude = [minif.export_stmt(children[i], names) for i in passive]
+        children = children[:passive[0]] + children[passive[-1] + 1:]
+    return prelude, lin_stmt(children, active, names)
+
+
 def lin_stmt(node, active, names):
     """PSyIR -> linear form (nested lists) of Model/AD.lean; blocks are ["seqs", ...]."""
     from psyclone.psyir import nodes as N
     if isinstance(node, (list, N.Schedule)):
         out = ["seqs"]
         for c in (node.children if isinstance(node, N.Schedule) else node):
-            if not _is_active(c, active):
+            if _is_passive_stmt(c, active):
                 raise OutsideModel("passive statement in a schedule")
             out.append(lin_stmt(c, active, names))
         return out
@@ -142,6 +170,7 @@ def pipeline(src, active, want_test=False, use_api=True):
     active = [a.lower() for a in active]
     res.exc = res.tl_form = res.ad_form = res.form_why = res.ad_str = res.test_str = None
     res.tl_minif = res.tlpp_minif = res.ad_minif = None
+    res.prelude = []
     res.api_matches = True
     res.status = "ok"
     use_api = use_api or want_test
@@ -165,7 +194,7 @@ def pipeline(src, active, want_test=False, use_api=True):
         tl_routine = tl.walk(Routine)[0]
         try:
             res.tlpp_minif = minif.export_stmt(tl_routine.children, res.names)
-            res.tl_form = lin_stmt(tl_routine.children, active, res.names)
+            res.prelude, res.tl_form = lin_routine(tl_routine.children, active, res.names)
         except (NotLinear, OutsideModel, Unsupported) as e:
             res.form_why = type(e).__name__ + ": " + str(e)
         if res.status != "ok":
@@ -193,7 +222,10 @@ def pipeline(src, active, want_test=False, use_api=True):
         return res
     if res.tl_form is not None:
         try:
-            res.ad_form = lin_stmt(ad_routine.children, active, res.names)
+            locals_ = [a for a in active if tl_routine.symbol_table.lookup(a).is_automatic]
+            ad_prelude, res.ad_form = lin_routine(ad_routine.children, active, res.names, locals_)
+            if ad_prelude != res.prelude:
+                res.ad_form, res.form_why = None, "adjoint: passive prelude differs from the TL routine's"
         except (NotLinear, OutsideModel, Unsupported) as e:
             res.ad_form, res.form_why = None, "adjoint: " + type(e).__name__ + ": " + str(e)
     return res
